@@ -201,12 +201,15 @@ class GFstub:
         self.real.SetRates(pre, betaene, preT, betaeneT)
         self.torus.bareGF(betaene, betaeneT)
         self.bFV, self.bFT0 = np.array(betaene), np.array(betaeneT)
+        c, eta = self.torus.baresite(self.bFV, self.bFT0)
+        Z = sum(np.exp(-self.bFV[self.torus.inv[i]]) for i in range(self.torus.N))
+        self.eta_exact = -eta / np.sqrt(Z)   # the calculator's convention: -Q~^+ b~ with normalised site probabilities
 
     def Diffusivity(self):
         return self.real.Diffusivity()
 
     def biascorrection(self):
-        return self.real.biascorrection()
+        return self.eta_exact.copy() if self.exact_eta else self.real.biascorrection()
 
     def __call__(self, i, j, dx):
         self.calls += 1
